@@ -224,6 +224,10 @@ def _run_1d(case, R):
                     {"model": mspec, "grid": g, "rep": rep})
         return
     lam = float(proc.intensity_of_jumps)
+    if not (lam >= W.resolution_floor(mspec)):
+        # (same domain rule as C01 - C03: a grid that carries less than a millionth of a compound-Poisson model's mass -- or none: rates 0/0)
+        R.skip("chain intensity below 1e-9 (or a millionth of the model's intensity): cell masses under the resolution of the closed forms")
+        return
     # rates as consumed by the sampler
     if method in ("ALIAS", "TABLE", "BINARYSEARCHTREE", "HUFFMANNTREE"):
         rates = rec.jump_vectors[-1] * lam
